@@ -658,16 +658,16 @@ func TestCheck(t *testing.T) {
 	}
 
 	stRT := newStats()
-	secRT := engine.Explore(roundtripBody(stRT), engine.Opts{Name: "roundtrip", Budget: engine.Budget(3*time.Minute, 20*time.Minute), MaxFails: 100000})
+	secRT := engine.Explore(roundtripBody(stRT), engine.Opts{Name: "roundtrip", Budget: engine.Budget(10*time.Minute, 30*time.Minute), MaxFails: 100000})
 	stRT.note(secRT)
 	coverageNote(secRT)
 
 	stM := newStats()
-	secM := engine.Explore(mutateBody(stM, func(r *row) bool { return true }), engine.Opts{Name: "mutate", Budget: engine.Budget(6*time.Minute, 40*time.Minute), MaxFails: 100000})
+	secM := engine.Explore(mutateBody(stM, func(r *row) bool { return true }), engine.Opts{Name: "mutate", Budget: engine.Budget(20*time.Minute, 60*time.Minute), MaxFails: 100000})
 	stM.note(secM)
 
 	stS := newStats()
-	secS := engine.Explore(shortBody(stS, rows, 2), engine.Opts{Name: "short/len<=2", Budget: engine.Budget(4*time.Minute, 20*time.Minute), MaxFails: 100000})
+	secS := engine.Explore(shortBody(stS, rows, 2), engine.Opts{Name: "short/len<=2", Budget: engine.Budget(10*time.Minute, 30*time.Minute), MaxFails: 100000})
 	stS.note(secS)
 
 	stC := newStats()
@@ -734,6 +734,9 @@ func coverageNote(sec *engine.Section) {
 	sort.Strings(stale)
 	sec.Note("registry: %d rows; %d of the %d UnmarshalCBOR methods under %s/pkg are decoded through directly by a row; %d rows are plain structs / interface-typed values / round messages without a custom decoder", len(rows), n, len(all), repoDir(), len(plain))
 	sec.Note("UnmarshalCBOR methods WITHOUT a registry row (%d): %s", len(miss), strings.Join(miss, ", "))
+	if !engine.Thorough() {
+		sec.Note("quick tier: the cggmp21 affgstar and dec proof types are registered in the thorough tier only (their honest transcripts take seconds to produce)")
+	}
 	if len(stale) > 0 {
 		engine.HarnessFail("registry rows name UnmarshalCBOR methods that do not exist (renamed?): %s", strings.Join(stale, ", "))
 	}
